@@ -42,6 +42,14 @@ def interval(body, op, depth=0):
     proj = p["p"]
     d = single_def(body, l)
     ty = body.local_ty(l)
+    # element of a constant array item (`TABLE[i]` with `const TABLE: [u64; N] = [..]`)
+    if proj and d is not None and d[0] == "stmt" and d[3]["s"] == "assign" and d[3]["rv"]["k"] in ("use", "ref"):
+        src = d[3]["rv"].get("op") or {"copy": d[3]["rv"].get("place")}
+        cc = op_const(src) if isinstance(src, dict) else None
+        if cc is not None and any(isinstance(e, dict) and ("idx" in e or "cidx" in e) for e in proj):
+            vals = _array_ints(cc.get("pp", ""))
+            if vals:
+                return (min(vals), max(vals))
     if d is None:
         return INT_RANGES.get(ty) if not proj else None
     kind, bb, j, x = d
@@ -89,6 +97,12 @@ def interval(body, op, depth=0):
         if r is not None:
             return r
     return INT_RANGES.get(ty)
+
+
+def _array_ints(pp):
+    import re as _re
+    m = _re.findall(r"(-?\d+)_[iu](?:8|16|32|64|128|size)", pp or "")
+    return [int(x) for x in m] if m and pp.strip().startswith(("[", "&[", "const [")) else []
 
 
 def _arith(body, rv, depth):
@@ -253,6 +267,9 @@ def enumerate_reach(ctx, rid, entries, crates=("acmed", "acme_common", "tacd"), 
     for k in sorted(reach):
         b = prog.body(k)
         if b.crate not in crates or any(k.startswith(e) for e in exclude):
+            continue
+        if prog.absorbed(k):
+            # a new helper, inlined everywhere it is used: its code is examined inside its callers, under their names
             continue
         bodies += 1
         for s in sources_in(b):
